@@ -125,8 +125,8 @@ def tree_oracle(errs, tree, kind):
 def run(ctx):
     r = random.Random(ctx["seed"])
     thorough = ctx["tier"] == "thorough"
-    n_forest = 40000 if thorough else 2000
-    n_valid = 30000 if thorough else 2500
+    n_forest = 40000 if thorough else 2000 * ctx.get('scale', 1)
+    n_valid = 30000 if thorough else 2500 * ctx.get('scale', 1)
     violations, samples = [], []
     dist = collections.Counter()
     sigs = set()
